@@ -64,7 +64,7 @@ def floors(prop, tier, stats, hashes, run, scale):
         msgs.append('fewer than 2 distinct non-trivial cases observed')
     return msgs
 
-HOOK_COMMITS = ['7e55016de', '7f3813205', '6c123d073']
+HOOK_COMMITS = ['7e55016de', '7f3813205', '6c123d073', '026593e10']
 NOT_CLAIMED = {}
 ENGINES = {
     'h_ds': 'C++ harness: generated operation histories on NN structures / BinaryHeap / PDF / Grid* checked in lock-step '
